@@ -350,7 +350,7 @@ fn enum_quant(ctx: &Ctx, max_n: usize) {
 pub fn run_c01(ctx: &Ctx) {
     let t = ctx.tier();
     enum_quant(ctx, t.pick(5, 6));
-    ctx.run_proptest("quant", t.pick(60_000, 2_000_000), qcase_strategy(t.pick(40, 400), t == Tier::Thorough, true), &check_quant);
+    ctx.run_proptest("quant", t.pick(60_000, 2_000_000), qcase_strategy(t.pick(120, 400), t == Tier::Thorough, true), &check_quant);
 }
 
 pub fn replayers() -> Vec<(&'static str, ReplayFn)> {
